@@ -20,7 +20,7 @@ def witness_dirs(tier):
     if os.path.isdir(base):
         for d in sorted(os.listdir(base)):
             p = os.path.join(base, d)
-            if os.path.isfile(os.path.join(p, "Cargo.toml.in")) and os.path.isfile(os.path.join(p, "targets.json")):
+            if os.path.isfile(os.path.join(p, "Cargo.toml.in")):
                 tfile = os.path.join(p, "TIER")
                 t = open(tfile).read().strip() if os.path.exists(tfile) else "quick"
                 if t == "quick" or tier == "thorough":
@@ -60,9 +60,10 @@ def build_facts(tier, variant):
     shutil.rmtree(out, ignore_errors=True)
     os.makedirs(out)
     crates = corpus.assemble(util.REPO, ws, include_examples=True, witness_dirs=witness_dirs(tier))
-    names = sorted(set(c.name for c in crates))
+    names = sorted(set(c.name for c in crates if getattr(c, "indexed", True) and not getattr(c, "expect_fail", False)))
+    all_names = sorted(set(c.name for c in crates))
     # force rebuild of the crates under analysis (cargo's freshness cache would skip the wrapper)
-    pkgs = set(n.replace("_", "-") for n in names) | set(names) | {"sylvia", "sylvia-derive", "repo-tests", "vprobe"}
+    pkgs = set(n.replace("_", "-") for n in all_names) | set(all_names) | {"sylvia", "sylvia-derive", "repo-tests", "vprobe"}
     for d in os.listdir(ws):
         pkgs.add(d)
         pkgs.add(d[3:] if d.startswith("ex-") else d)
@@ -84,7 +85,7 @@ def build_facts(tier, variant):
 
     def parse(c):
         f = os.path.join(out, c.name + c.suffix + ".expanded.rs")
-        if not os.path.exists(f):
+        if not getattr(c, "indexed", True) or getattr(c, "expect_fail", False) or not os.path.exists(f):
             return (c, None, f)
         return (c, util.syn_ast(f), f)
 
@@ -96,7 +97,8 @@ def build_facts(tier, variant):
     for c, ast, f in results:
         key = c.name + c.suffix
         info = {"name": c.name, "suffix": c.suffix, "origin": c.origin, "root": c.root, "key": key,
-                "expect_fail": getattr(c, "expect_fail", False), "expanded_file": f, "has_expansion": ast is not None}
+                "expect_fail": getattr(c, "expect_fail", False), "expanded_file": f, "has_expansion": ast is not None,
+                "witness": getattr(c, "witness", None), "indexed": getattr(c, "indexed", True)}
         fx.crates.append(info)
         fx.expanded[key] = ast
         for found in c.items:
